@@ -203,9 +203,9 @@ func partBSweeps(r *core.Run) []sweep {
 	// handler and the Go handler; the other operations reaching the same trap, the full-forwarding handler flavour and
 	// (quick tier) the non-string key kinds run on reduced lattices. The thorough tier runs the full product everywhere.
 	thorough := r != nil && r.Thorough()
-	k3 := []int{0, 1, 2} // "p", "0", SYM
-	k1 := []int{0}
-	kOther := k1 // key kinds for the secondary flavours in the quick tier
+	k3 := probeKeys   // "p", "0", SYM, 0
+	k1 := []int{0, 5} // "p", 0
+	kOther := k1      // key kinds for the secondary flavours in the quick tier
 	if thorough {
 		kOther = k3
 	}
@@ -297,16 +297,16 @@ func partBSweeps(r *core.Run) []sweep {
 		fl := []int{flSingle, flGo}
 		sw = append(sw, sweep{
 			name: "revoked",
-			dims: []int{len(fl), 2, nProbeKeys, len(ops)},
+			dims: []int{len(fl), 2, len(probeKeys), len(ops)},
 			mk: func(ix []int) (BCase, bool) {
-				c := BCase{Part: "B", Trap: "get", Flavour: fl[ix[0]], TKind: []int{tkObject, tkFunc}[ix[1]], Ext: true, Key: ix[2], Op: ix[3], Revoke: true, Fwd: true}
+				c := BCase{Part: "B", Trap: "get", Flavour: fl[ix[0]], TKind: []int{tkObject, tkFunc}[ix[1]], Ext: true, Key: probeKeys[ix[2]], Op: ix[3], Revoke: true, Fwd: true}
 				switch ops[c.Op].arg {
 				case argVal:
 					c.Arg = vA
 				case argDesc:
 					c.Arg = 10
 				}
-				if !ops[c.Op].keyed && c.Key > 0 {
+				if !ops[c.Op].keyed && ix[2] > 0 {
 					return c, false
 				}
 				return c, true
@@ -347,9 +347,9 @@ func partBSweeps(r *core.Run) []sweep {
 			opIdx := opsFor(t.trap)
 			sw = append(sw, sweep{
 				name: "layered/" + t.trap,
-				dims: []int{nLayers, len(fl), len(t.behs), len(cfgs), 2, nProbeKeys, len(opIdx), len(t.args)},
+				dims: []int{nLayers, len(fl), len(t.behs), len(cfgs), 2, len(probeKeys), len(opIdx), len(t.args)},
 				mk: func(ix []int) (BCase, bool) {
-					c := BCase{Part: "B", Trap: t.trap, Layers: ix[0] + 1, Flavour: fl[ix[1]], Cfg: cfgs[ix[3]], Ext: ix[4] == 0, Key: ix[5], Op: opIdx[ix[6]], Arg: t.args[ix[7]]}
+					c := BCase{Part: "B", Trap: t.trap, Layers: ix[0] + 1, Flavour: fl[ix[1]], Cfg: cfgs[ix[3]], Ext: ix[4] == 0, Key: probeKeys[ix[5]], Op: opIdx[ix[6]], Arg: t.args[ix[7]]}
 					applyBeh(&c, t.behs[ix[2]])
 					if ops[c.Op].arg == argNone && ix[7] > 0 {
 						return c, false
